@@ -53,7 +53,7 @@ from harness.lib.metareader import TableReader, entry_tuple
 
 LEVEL = "proof"
 THEOREMS = [
-    "C15_wf_invariant", "C15_seq_in_log_order", "C15_last_seq_mono", "C15_no_abort", "C15_repoint_nearest",
+    "C15_wf_invariant", "C15_no_current_means_empty", "C15_seq_in_log_order", "C15_last_seq_mono", "C15_no_abort", "C15_repoint_nearest",
     "C15_nearest_is_ancestor", "C15_repoint_cycle", "C15_current_kept", "C15_delete_exact", "C15_entries_provenance",
     "C15_repoint_all", "C15_txn_files", "C15_delete_complete", "C15_txn_delete_complete", "C15_mlog_ok", "C15_mlog_names_superseded", "C15_mutators_regenerated", "C15_file_ops_regenerated", "C15_step_regenerated", "C15_entry_codec_preserves", "C09_by_timestamp", "C09_delete_current", "C09_by_id",
 ]
